@@ -212,6 +212,13 @@ __CPROVER_ensures(NOCOMMON(e1, e2, s1, s2) ==> (!__CPROVER_return_value && *seen
 __CPROVER_ensures(__CPROVER_old(*seen) ==> *seen)
 /* blocking without a proper crossing needs an end-point contact seen before */
 __CPROVER_ensures((__CPROVER_return_value && !PROPER(e1, e2, s1, s2)) ==> __CPROVER_old(*seen))
+/* an end point of e on the HALF-OPEN shape edge (s1, s2] -- open at s1, closed at the vertex s2, so that going round a polygon every vertex belongs to
+ * exactly one edge -- with the other end point off the edge's line is a contact: the first one is remembered and let through, a later one blocks */
+#define ON_HALFOPEN(s1, s2, e) (SAMEPT(s2, e) || ONL(s1, s2, e))
+#define CONTACT(e1, e2, s1, s2) ((ON_HALFOPEN(s1, s2, e1) && ORI(s1, s2, e2) != 0) || (ON_HALFOPEN(s1, s2, e2) && ORI(s1, s2, e1) != 0))
+__CPROVER_ensures((!PROPER(e1, e2, s1, s2) && CONTACT(e1, e2, s1, s2)) ==> (((__CPROVER_return_value != 0) == (__CPROVER_old(*seen) != 0)) && *seen))
+/* and anything that is neither a crossing nor such a contact (e.g. e running along the edge's line) neither blocks nor is remembered */
+__CPROVER_ensures((!PROPER(e1, e2, s1, s2) && !CONTACT(e1, e2, s1, s2)) ==> (!__CPROVER_return_value && *seen == __CPROVER_old(*seen)))
 __CPROVER_assigns(*seen)
 ;
 void h_segmentShapeIntersect(void) { void *e1, *e2, *s1, *s2; _Bool *seen; w_segmentShapeIntersect(e1, e2, s1, s2, seen); VERIF_CANARY; }
